@@ -14,15 +14,21 @@ ASSUMPTIONS = [
     "the `_manylinux` policy module is a pure function of (major, minor, arch) (it is called twice for a legacy tag)",
     "mixed architecture lists get one floor for the whole list, as the code does (2.5 if x86_64 or i686 is anywhere in the list): "
     "the realistic lists are [arch] or [armv8l, armv7l]; the monotonicity/exactness theorems are stated per list",
-    "ELF offsets/sizes >= 2**63 are exercised on io.BytesIO only; images read through a real file (sys.executable) keep offsets below 2**32, "
-    "since regular files fail differently on huge offsets (OSError/MemoryError, caught or not depending on the caller)",
+    "images read through a real file (sys.executable, stream elf-file) use offsets/sizes either below 2**32 or from {2**50, 2**62, 2**63-1, 2**63, max}: "
+    "where lseek / the read buffer start to refuse is machine dependent (file system limit, memory); the model takes the two limits as parameters "
+    "(ElfDisk.v) and the harness passes the nominal 2**48 for both - values between 2**32 and 2**50 are not generated",
+    "subprocess.run for the musl loader is a stand-in that raises what the real one raises for such an argv (ValueError: embedded NUL; "
+    "FileNotFoundError: the path is not in the case's list of existing loaders) and else returns the case's loader output; other failures of a real "
+    "exec (PermissionError, ENOEXEC) are not modelled",
+    "findings D27/D41/D42/D43 (mixed-list floor, musl loader exceptions, superset across glibc majors, iOS minors above 9): their law cases are "
+    "generated only when the id is registered in known_findings.txt; the model-side streams cover the same inputs as agreement model = code",
     "version digits are ASCII; `\\d` and int() also accept other Unicode decimal digits (not modelled, not generated in the musl loader output)",
-    "subprocess.run (the musl loader, the macOS version re-read) is an oracle: its output text is a parameter",
+    "the OUTPUT of subprocess.run (the musl loader's banner, the macOS version re-read) is a parameter of the model",
     "os.fsdecode is UTF-8/surrogateescape (checked: it round-trips every byte), so the interpreter path is compared as bytes",
     "platform.mac_ver()/ios_ver() release strings have at least two integer components",
 ]
 TRUSTED_EXTRA = ["struct: the layout is modelled and proved (pack/unpack codec); its error on short reads is assumed",
-                 "file seek/read: modelled for io.BytesIO (short reads, OverflowError from 2**63 on)"]
+                 "file seek/read: modelled for io.BytesIO (short reads, OverflowError from 2**63 on) and for a regular file (refusal from the two limits on)"]
 
 # Departures of the code from the TEXT of the statement, confirmed on the real code.  Their law cases are generated only once the
 # finding is registered in known_findings.txt (ids below; proposed lines in harness/props/PROPOSED_FINDINGS_tags.txt), so that the
@@ -167,7 +173,7 @@ def streams(rng, tier):
             for arch in (MAC_ARCHS if not q else rng.sample(MAC_ARCHS, 4)):
                 out.append(Case("macos", "p.mac", [str(M), str(m), arch]))
     for _ in range(300 if q else 6000):
-        M = rng.choice([10, 10, 11, 12, 14, 15, 26, 9]); m = rng.randrange(0, 20)
+        M = rng.choice([10, 10, 11, 12, 14, 15, 26, 9]); m = rng.choice([rng.randrange(0, 20), rng.randrange(0, 40)])
         M2 = rng.choice([M, M, M + 1, rng.randrange(9, 28)]); m2 = rng.choice([m, m + 1, rng.randrange(0, 20)])
         out.append(Case("law-macos", "law.p.mac", [str(M), str(m), str(M2), str(m2), rng.choice(MAC_ARCHS)], kind="law"))
     for _ in range(150 if q else 3000):
@@ -175,11 +181,11 @@ def streams(rng, tier):
         sub = "%d.%d%s\n" % (rng.choice([11, 12, 13, 26]), rng.randrange(0, 8), rng.choice(["", ".1"]))
         out.append(Case("macos-default", "p.macdef", ["%d.%d%s" % (M, m, p), rng.choice(MAC_ARCHS[:5]), sub]))
     # ---- iOS
-    for M in range(10, 20):
-        for m in range(0, 12):
+    for M in list(range(10, 20)) + ([] if q else [20, 25, 40]):
+        for m in range(0, 12 if q else 15):
             out.append(Case("ios", "p.ios", [str(M), str(m), rng.choice(["arm64-iphoneos", "arm64-iphonesimulator", "x86_64-iphonesimulator", "arm64_iphoneos", "a-b-c"])]))
     for _ in range(200 if q else 4000):
-        M = rng.randrange(10, 20); m = rng.randrange(0, 14); M2 = rng.choice([M, M + 1, rng.randrange(10, 20)]); m2 = rng.choice([m, m + 1, rng.randrange(0, 14)])
+        M = rng.randrange(10, 26); m = rng.randrange(0, 14); M2 = rng.choice([M, M + 1, rng.randrange(10, 26)]); m2 = rng.choice([m, m + 1, rng.randrange(0, 14)])
         if M < M2 and m > 9 and ID_IOS_MINOR not in REGISTERED: continue
         out.append(Case("law-ios", "law.p.ios", [str(M), str(m), str(M2), str(m2), "arm64-iphoneos"], kind="law"))
     # ---- _linux_platforms and the platform_tags() dispatch
@@ -217,9 +223,10 @@ def streams(rng, tier):
             out.append(Case("law-musl-noraise", "law.p.noraise", [enc_list(rng.choice(G.GOOD_ARCH_LISTS)), musl_exe(rng), G.rand_musl_output(rng), rand_loaders(rng)], kind="law"))
     # ---- memoised probes across calls: several executables (keys), changing glibc / loader output, no cache_clear() in between
     for _ in range(250 if q else 5000):
-        archs = rng.choice(G.GOOD_ARCH_LISTS)
+        archs = rng.choice(G.GOOD_ARCH_LISTS if rng.random() < 0.6 else [["i686"], ["armv7l"], ["armv8l", "armv7l"]])
         args = [enc_list(archs)]
         exes = {k: (exe_for(rng, archs) if rng.random() < 0.4 else musl_exe_safe(rng)) for k in "ABC"}
+        if rng.random() < 0.5: exes["A"] = rng.choice(["X", "Fnot an elf"])       # the ABI check fails first: the glibc memo must stay empty
         for _ in range(rng.choice([2, 3, 4, 6])):
             k = rng.choice("AAB" if rng.random() < 0.7 else "ABC")
             if rng.random() < 0.15: exes[k] = musl_exe_safe(rng)          # the file behind a path changes: the memo is by path
